@@ -476,6 +476,13 @@ def make_calls(rng):
                          ("A128GCMKW", "A128GCM", "oct16")):
         calls[f"jwe.enc.{alg}"] = jwe_enc(alg, enc, kn, f"plaintext-{alg}".encode())
         calls[f"jwe.enc.{alg}.b"] = jwe_enc(alg, enc, other.get(kn, kn), f"second-{alg}".encode() * 5)
+    # probes: a header carrying a parameter that belongs to ANOTHER algorithm family is refused by the strict header
+    # check - also on a registry that has served that other family before (no per-registry memory of what it has seen)
+    for alg, enc, kn, extra in (("A128GCMKW", "A128GCM", "oct16", {"apu": "QQ"}), ("A128GCMKW", "A128GCM", "oct16", {"p2c": 1000}),
+                                ("ECDH-ES", "A256GCM", "x25519", {"p2c": 1000}), ("ECDH-ES+A128KW", "A128GCM", "p256", {"tag": "AAAAAAAAAAAAAAAAAAAAAA"}),
+                                ("PBES2-HS256+A128KW", "A128GCM", "oct32", {"apv": "QQ"}), ("PBES2-HS256+A128KW", "A128GCM", "oct32", {"iv": "AAAAAAAAAAAAAAAA"}),
+                                ("dir", "A128GCM", "oct16", {"apu": "QQ"}), ("A128KW", "A128CBC-HS256", "oct16", {"p2s": "AAAAAAAAAAA"})):
+        calls[f"jwe.enc.{alg}.foreign-{next(iter(extra))}"] = jwe_enc(alg, enc, kn, b"probe", extra=extra)
     calls["jwe.enc.zip"] = jwe_enc("A128KW", "A128GCM", "oct16", b"z" * 300, extra={"zip": "DEF"})
     calls["jwe.enc.disallowed"] = jwe_enc("A128KW", "A128GCM", "oct16", b"x", reg="jwe_reg_dir")
 
